@@ -226,6 +226,7 @@ def cli_text(task):
         path = os.path.join(d, fname)
         with open(path, "w") as f:
             f.write(text)
-        return impl.run_cli(list(extra) + [path])
+        # main() runs under the deterministic fuel counter too: a hang must become an observation
+        return impl.run_cli(list(extra) + [path], fuel=2000 * (len(text) + 100))
     finally:
         shutil.rmtree(d, ignore_errors=True)
